@@ -70,7 +70,9 @@ partial def parseSection (ws : List String) : Option (Option SectionView) :=
           let listen : Option (List String) := if l == "nil" then none else some ((if iface.isSome then [] else os).map (·.s))
           -- when `interface` and `listen` are both present the harness still lists the listen strings
           let listen := if l != "nil" && iface.isSome then some (os.map (·.s)) else listen
-          some (some ⟨plugins, iface, listen, os⟩)
+          -- the alias alone: the harness lists the strings cast.ToStringSliceE("%" + interface) yields
+          let alias : List String := if l == "nil" && iface.isSome then os.map (·.s) else []
+          some (some ⟨plugins, iface, listen, alias, os⟩)
         | _, _ => none
       | _ => none
   | _ => none
